@@ -18,17 +18,46 @@ Returns admission, offer and get instants per item."""
 EPS = 1e-9
 
 
-def simulate(L, il, v, cap, acc, producer, consumer, T, admit_first=(), chold=None, ccancel=None, pcancel=None):
+class _Prod:
+    """one scripted source of admission requests: wait script[i] after its previous request was served, then ask"""
+
+    def __init__(self, script, pcancel):
+        self.script = list(script or [])
+        self.pcancel = pcancel
+        self.i = 0
+        self.req = self.script[0] if self.script else None     # time of the next admission request
+        self.waiting = False
+        self.t_req = None
+
+    def now_due(self, t):
+        return self.req is not None and not self.waiting and abs(self.req - t) <= EPS * max(1.0, t)
+
+    def ask(self, t):
+        self.waiting = True
+        self.t_req = self.req
+
+    def served(self, t):
+        self.waiting = False
+        self.i += 1
+        self.req = t + self.script[self.i] if self.i < len(self.script) else None
+
+    def withdraws(self):
+        return bool(self.pcancel and self.i < len(self.pcancel) and self.pcancel[self.i])
+
+
+def simulate(L, il, v, cap, acc, producer, consumer, T, admit_first=(), chold=None, ccancel=None, pcancel=None,
+             producer2=None, pcancel2=None):
     """admit_first: collection of tie indices (in order of occurrence) resolved as 'admission before the stall'"""
     t = 0.0
     belt = []            # fronts of the items on the belt, head first (not yet offered)
     ids = []             # item indices parallel to belt
     offered = None       # index of the item waiting at the exit
     admit, offer, got = [], {}, {}
-    n_items = len(producer)
-    pi = 0               # next producer script entry
-    p_req = producer[0] if producer else None     # time of the next admission request
-    p_waiting = False
+    prods = [_Prod(producer, pcancel)] + ([_Prod(producer2, pcancel2)] if producer2 else [])
+
+    def first_waiting():
+        w = [q for q in prods if q.waiting]
+        return min(w, key=lambda q: (q.t_req, prods.index(q))) if w else None
     ci = 0
     c_req = consumer[0] if consumer else None
     c_waiting = False
@@ -48,8 +77,10 @@ def simulate(L, il, v, cap, acc, producer, consumer, T, admit_first=(), chold=No
         frozen = stalled and not acc
         # ---- candidate next events
         cands = []
-        if p_req is not None and not p_waiting:
-            cands.append(p_req)
+        for q in prods:
+            if q.req is not None and not q.waiting:
+                cands.append(q.req)
+        p_waiting = any(q.waiting for q in prods)
         if c_req is not None and not c_waiting:
             cands.append(c_req)
         if take_at is not None:
@@ -86,26 +117,27 @@ def simulate(L, il, v, cap, acc, producer, consumer, T, admit_first=(), chold=No
         # ---- tie resolution: an admission request that coincides (within tolerance) with the head reaching
         # the exit may be served before the stall begins
         head_arrives = bool(belt) and offered is None and belt[0] >= L - EPS * max(1.0, L)
-        req_now = p_req is not None and not p_waiting and abs(p_req - t) <= EPS * max(1.0, t)
+        req_now = any(q.now_due(t) for q in prods)
+        p_waiting = any(q.waiting for q in prods)
         is_tie = head_arrives and (req_now or p_waiting) and not acc
         if is_tie:
             ties.append(t)
         if is_tie and (len(ties) - 1) in admit_first:
-            if p_req is not None and not p_waiting and abs(p_req - t) <= EPS * max(1.0, t):
-                p_waiting = True
-                progressed = True
+            for q in prods:
+                if q.now_due(t):
+                    q.ask(t)
+                    progressed = True
             st0 = offered is not None
             fr0 = st0 and not acc
-            if p_waiting and len(belt) + (1 if st0 else 0) < cap and not fr0 and (not belt or belt[-1] >= il - EPS):
-                if pcancel and pi < len(pcancel) and pcancel[pi]:
+            q = first_waiting()
+            if q is not None and len(belt) + (1 if st0 else 0) < cap and not fr0 and (not belt or belt[-1] >= il - EPS):
+                if q.withdraws():
                     withdrawn.append(t)      # admission granted and withdrawn at once: nothing enters
                 else:
                     belt.append(0.0)
                     ids.append(len(admit))
                     admit.append(t)
-                p_waiting = False
-                pi += 1
-                p_req = t + producer[pi] if pi < n_items else None
+                q.served(t)
                 progressed = True
         # ---- consumer request
         if c_req is not None and not c_waiting and abs(c_req - t) <= EPS * max(1.0, t):
@@ -125,7 +157,7 @@ def simulate(L, il, v, cap, acc, producer, consumer, T, admit_first=(), chold=No
             c_req = t + consumer[ci] if ci < len(consumer) else None
             progressed = True
             stall_seen = True
-            if belt or p_waiting:
+            if belt or any(q.waiting for q in prods):
                 stall_with_others = True
             if c_req is not None and abs(c_req - t) <= EPS * max(1.0, t):
                 c_waiting = True
@@ -134,7 +166,7 @@ def simulate(L, il, v, cap, acc, producer, consumer, T, admit_first=(), chold=No
             take_at = t + chold[ci]
             progressed = True
             stall_seen = True
-            if belt or p_waiting:
+            if belt or any(q.waiting for q in prods):
                 stall_with_others = True
         if c_waiting and offered is not None and take_at is not None and take_at > t + EPS * max(1.0, t):
             pass            # still waiting at the exit for its collection
@@ -149,26 +181,26 @@ def simulate(L, il, v, cap, acc, producer, consumer, T, admit_first=(), chold=No
         elif offered is not None and not c_waiting:
             if not stall_seen:
                 stall_seen = True
-            if belt or p_waiting:
+            if belt or any(q.waiting for q in prods):
                 stall_with_others = True
-        # ---- producer request
-        if p_req is not None and not p_waiting and abs(p_req - t) <= EPS * max(1.0, t):
-            p_waiting = True
-            progressed = True
-        # ---- admission
+        # ---- producer requests
+        for q in prods:
+            if q.now_due(t):
+                q.ask(t)
+                progressed = True
+        # ---- admission (one per pass, in request order)
         stalled = offered is not None
         frozen = stalled and not acc
-        if p_waiting and len(belt) + (1 if stalled else 0) < cap and not frozen and (not belt or belt[-1] >= il - EPS):
+        q = first_waiting()
+        if q is not None and len(belt) + (1 if stalled else 0) < cap and not frozen and (not belt or belt[-1] >= il - EPS):
             # while stalled on an accumulating belt the entrance must still be reachable
-            if pcancel and pi < len(pcancel) and pcancel[pi]:
+            if q.withdraws():
                 withdrawn.append(t)          # admission granted and withdrawn at once: nothing enters
             else:
                 belt.append(0.0)
                 ids.append(len(admit))
                 admit.append(t)
-            p_waiting = False
-            pi += 1
-            p_req = t + producer[pi] if pi < n_items else None
+            q.served(t)
             progressed = True
         if not progressed and dt <= 0:
             # nothing can happen any more at this instant
